@@ -18,7 +18,7 @@ use crate::cm::{self, guard, panic_str, Fam, Panicked, Res};
 use crate::pk3::{self, V3};
 use crate::pk5::{self, V5};
 use crate::sio::{
-    self, block_on, body_bytes, parse_atoms, parse_script, parse_tail, poll_once,
+    block_on, body_bytes, parse_atoms, parse_script, parse_tail, poll_once,
     poll_until_ready, SchedReader, ScriptReader, ScriptWriter, Step, Sz, Tail,
 };
 use crate::tok::{self, PResult, Toks};
@@ -1373,6 +1373,3 @@ fn op_cross(t: &mut Toks) -> PResult<String> {
     tok::num(&mut out, rused as u64);
     Ok(out)
 }
-
-#[allow(dead_code)]
-fn _unused(_: sio::Atom) {}
